@@ -52,33 +52,30 @@ Proof.
 Qed.
 
 (* ---------------- parentheses and multi-valued expressions (manual §3.4.12) *)
-(* what the parser keeps of explicit parentheses: exactly those around calls *)
-Theorem paren_kept_iff_call : forall e,
-  norm (EParen e) = (if is_call (norm e) then EParen (norm e) else norm e).
+(* what the parser keeps of explicit parentheses *)
+Theorem paren_kept_iff_multi : forall e, norm (EParen e) = in_brackets (norm e).
 Proof. reflexivity. Qed.
 
 (* parentheses around a single-valued expression are dropped (harmless) *)
 Theorem paren_dropped_single_valued : forall e,
   multi_valued (norm e) = false -> norm (EParen e) = norm e.
 Proof.
-  intros e H. rewrite paren_kept_iff_call. destruct (norm e); simpl in *; try reflexivity; discriminate.
+  intros e H. rewrite paren_kept_iff_multi. destruct (norm e); simpl in *; try reflexivity; discriminate.
 Qed.
 
-(* parentheses around a call are kept (ast.BFunctionCall) *)
+(* parentheses around a call are kept (ast.BFunctionCall) … *)
 Theorem paren_kept_call : forall f m b args,
   norm (EParen (ECall f m b args)) = EParen (norm (ECall f m b args)).
 Proof. reflexivity. Qed.
 
-(* … but the parser (PrefixExp applies InBrackets to FunctionCall only) also
-   drops them around '...', which is multi-valued: the statement "parentheses
-   are dropped only around single-valued expressions" is false of the code. *)
-Theorem paren_only_truncates_multivalue_refuted :
-  exists e, multi_valued (norm e) = true /\ norm (EParen e) = norm e.
-Proof. exists EEtc. split; reflexivity. Qed.
+(* … and around '...' (ast.UnOp{OpId, Etc}, after the repair of PrefixExp) *)
+Theorem paren_kept_etc : norm (EParen EEtc) = EParen EEtc.
+Proof. reflexivity. Qed.
 
-Theorem paren_only_truncates_multivalue_partial : forall e,
-  norm e <> EEtc -> (norm (EParen e) = norm e <-> multi_valued (norm e) = false).
+(* parentheses are dropped exactly around the single-valued expressions *)
+Theorem paren_only_truncates_multivalue : forall e,
+  norm (EParen e) = norm e <-> multi_valued (norm e) = false.
 Proof.
-  intros e Hne. rewrite paren_kept_iff_call. destruct (norm e) eqn:E; simpl; split; intros H;
-    try reflexivity; try discriminate; try congruence.
+  intros e. rewrite paren_kept_iff_multi. destruct (norm e); simpl; split; intros H;
+    try reflexivity; try discriminate.
 Qed.
